@@ -13,13 +13,16 @@ static ERRORS: AtomicU64 = AtomicU64::new(0);
 
 impl log::Log for Cap {
     fn enabled(&self, m: &log::Metadata) -> bool {
-        m.level() <= log::Level::Info
+        m.level() <= if std::env::var_os("VH_TRACE").is_some() { log::Level::Trace } else { log::Level::Info }
     }
     fn log(&self, r: &log::Record) {
         if !self.enabled(r.metadata()) {
             return;
         }
         let msg = r.args().to_string();
+        if std::env::var_os("VH_TRACE").is_some() {
+            eprintln!("[{}] {}", r.level(), msg);
+        }
         if msg.starts_with("Error reloading") {
             WARN_RELOAD_ERR.fetch_add(1, SeqCst);
         } else if msg.starts_with("Inexistant reverse dependency") {
@@ -43,7 +46,7 @@ impl log::Log for Cap {
 pub fn install() {
     static C: Cap = Cap;
     let _ = log::set_logger(&C);
-    log::set_max_level(log::LevelFilter::Info);
+    log::set_max_level(if std::env::var_os("VH_TRACE").is_some() { log::LevelFilter::Trace } else { log::LevelFilter::Info });
 }
 
 pub fn reload_errors() -> u64 {
